@@ -17,7 +17,7 @@ Fixpoint calls_e (k : nat) (e : expr) : bool :=
       end in
   match e with
   | EConst _ | EVar _ | ESelf _ | ETra _ | ESender | EValue => true
-  | EBin _ _ a b | ECmp _ a b | EAnd a b | EOr a b | EIdx a b | EMin a b | EMax a b | EConcat a b =>
+  | EBin _ _ a b | ECmp _ a b | EAnd a b | EOr a b | EIdx a b | EMin a b | EMax a b | EConcat a b | EShift _ _ a b =>
       calls_e k a && calls_e k b
   | ESlice a b c => calls_e k a && (calls_e k b && calls_e k c)
   | ENot a | ENeg _ a | EFld a _ | ELen a | EConv _ a => calls_e k a
